@@ -680,7 +680,45 @@ def run_sim(ctx, sc):
 
 
 # ----------------------------------------------------------------------------------------------
+def check_history_independent(ctx):
+    """a memory is determined by its own arguments: the same memory built after OTHER memories (another inhibition
+    scale, another class) has the same wiring, transform for transform, as when it is built first"""
+    import nengo
+
+    def wiring(cls, **kw):
+        v = spa.Vocabulary(16, pointer_gen=np.random.RandomState(5))
+        v.populate("A; B; C")
+        with spa.Network(seed=3) as net:
+            args = (v,) if cls is spa.IAAssocMem else (0.3, v)
+            am = cls(*args, mapping=["A", "B", "C"], **kw)
+        out = []
+        for c in am.all_connections:
+            tr = getattr(c.transform, "init", c.transform)
+            tr = np.asarray(tr, dtype=float) if isinstance(tr, (int, float, list, np.ndarray)) else None
+            nm = lambda o: f"{type(o).__name__}:{getattr(o, 'label', None)}"      # (no object addresses)
+            out.append((nm(c.pre_obj), nm(c.post_obj), None if tr is None else tr.tolist()))
+        return out
+
+    for cls, cname in ((spa.WTAAssocMem, "WTAAssocMem"), (spa.IAAssocMem, "IAAssocMem"), (spa.ThresholdingAssocMem, "ThresholdingAssocMem")):
+        case = {"op": "history-independent-wiring", "class": cname}
+        ctx.count(f"history-independent {cname}", nontrivial=True, branch="history-independent")
+        try:
+            first = wiring(cls)
+            wiring(spa.WTAAssocMem, inhibit_scale=0.3)          # other memories in between
+            wiring(spa.IAAssocMem)
+            wiring(spa.WTAAssocMem, inhibit_scale=2.5)
+            again = wiring(cls)
+        except Exception as e:  # noqa: BLE001
+            ctx.fail(case, f"{type(e).__name__}: {e}"[:120], "the memories build", where="history-independent")
+            continue
+        if first != again:
+            k = next((i for i, (a_, b_) in enumerate(zip(first, again)) if a_ != b_), None)
+            ctx.fail(dict(case, connection=None if k is None else first[k][:2]),
+                     None if k is None else again[k][2], None if k is None else first[k][2], where="history-independent")
+
+
 def run(ctx):
+    check_history_independent(ctx)
     before = ctx.evaluations
     for cfg in gen_configs(ctx):
         check_config(ctx, cfg)
